@@ -75,3 +75,38 @@ package syncer
 //@   nopanic
 //@   pure
 //@   ensures nil_result: isnil(val) && err == nil
+
+// ---------------------------------------------------------------- dupsort hack
+
+//@ func dupSortHackEncodeOne
+//@   nopanic
+//@   let kl = len(e.Key)
+//@   let vlen = ite(len(e.Value) > 506 - kl, 506 - kl, len(e.Value))
+//@   ensures err_iff: iff(err != nil, kl == 0 || kl > 255)
+//@   ensures key_len!: err == nil ==> len(result.Key) == kl + 4 + vlen + 1
+//@   ensures len_le_511: err == nil ==> len(result.Key) >= 6 && len(result.Key) <= 511
+//@   ensures layout_key: err == nil ==> seqof(result.Key[:kl]) == seqof(e.Key)
+//@   ensures layout_sep: err == nil ==> forall(i, 0, 4, result.Key[kl+i] == 0)
+//@   ensures layout_val: err == nil ==> seqof(result.Key[kl+4:kl+4+vlen]) == seqof(e.Value[:vlen])
+//@   ensures layout_lenbyte: err == nil ==> result.Key[kl+4+vlen] == uint8(kl)
+//@   ensures value_same: err == nil ==> sameSlice(result.Value, e.Value) && result.Flags == e.Flags
+//@   ensures fresh_key: err == nil ==> fresh(result.Key)
+
+//@ func dupSortHackDecodeOne
+//@   nopanic
+//@   pure
+//@   let n = len(e.Key)
+//@   let kl = int(e.Key[n-1])
+//@   ensures ok_iff: iff(err == nil, n >= 6 && n >= kl + 5 && e.Key[kl] == 0 && e.Key[kl+1] == 0 && e.Key[kl+2] == 0 && e.Key[kl+3] == 0)
+//@   ensures key: err == nil ==> sameSlice(result.Key, e.Key[:kl])
+//@   ensures value: err == nil ==> sameSlice(result.Value, e.Value) && result.Flags == e.Flags
+
+// decode(encode(kv)) == kv, over the two contracts
+//@ lemma dupsort_decode_encode
+//@   var kv snapshot.KV
+//@   call enc, err1 = dupSortHackEncodeOne(kv)
+//@   assume err1 == nil
+//@   call dec, err2 = dupSortHackDecodeOne(enc)
+//@   prove decodes: err2 == nil
+//@   prove key: seqof(dec.Key) == seqof(kv.Key)
+//@   prove value: sameSlice(dec.Value, kv.Value) && dec.Flags == kv.Flags
